@@ -14,8 +14,8 @@
      engine/workflows.py : Workflow.pause / resume / _continue_workflow (IDLE tasks are re-run,
        completed unprocessed tasks get their follow-ups), _fail_workflow (returns on PAUSED)
 
-   The model says what the code DOES, including what it does when a policy job fires on a task
-   that has moved on meanwhile (continue_task sets RUNNING from any state).  -/
+   The model says what the code DOES (as of /repo 831643dc + 258aaaae + 3cd97083: stale continue /
+   complete jobs are dropped unless the task is DELAYED — for whatever reason it is DELAYED).  -/
 import Mistral.Model.PolicyBase
 import Mistral.Gen.PolicyOrder
 
@@ -264,13 +264,10 @@ def runHooks (f : PolicyKind → S → R) : List PolicyKind → S → R
 def beforeAll (p : Params) (s : S) : R := runHooks (beforeOne p) Gen.PolicyOrder.order s
 def afterAll (p : Params) (s : S) : R := runHooks (afterOne p) Gen.PolicyOrder.order s
 
-/-- `task_handler.force_fail_task`: ERROR unconditionally; the workflow fails unless PAUSED or
-    finished (`Workflow._fail_workflow`) — judged on `task_ex.workflow_execution` as it was loaded at
-    the start of the transaction (`wf0`): a pause-before of this very transaction is not seen
-    (`update_on_match` returned a fresh row object to `Workflow.pause`), so the workflow goes
-    PAUSED → ERROR when a later hook of the same start raises. -/
-def forceFail (wf0 : WfSt) (s : S) : S :=
-  { s with st := .error, msg := .forced, wf := if wf0 = .running then .done else s.wf }
+/-- `task_handler.force_fail_task`: ERROR unconditionally; the workflow fails unless it is
+    finished (`Workflow._fail_workflow`; since 3cd97083 a PAUSED workflow is failed too). -/
+def forceFail (s : S) : S :=
+  { s with st := .error, msg := .forced, wf := .done }
 
 def follows (p : Params) (st : TSt) : Nat :=
   match p.follow with
@@ -284,7 +281,7 @@ def completeTask (p : Params) (s : S) (st : TSt) (m : Msg) : S :=
   if isCompleted s.st then s
   else
     match afterAll p { s with st := st, msg := m } with
-    | .raise s2 => forceFail s.wf s2
+    | .raise s2 => forceFail s2
     | .ok s2 =>
       if s2.st = .delayed then s2          -- "Ignore DELAYED state."
       else if s2.wf = .paused then s2      -- next_tasks stored, nothing dispatched, not processed
@@ -310,7 +307,7 @@ def crash (s : S) : S := { s with crashes := s.crashes + 1 }
     hook changed the state.  `InvalidModelException` from a hook → `force_fail_task`. -/
 def launch (p : Params) (s0 : S) : S :=
   match beforeAll p { s0 with st := .running } with
-  | .raise s2 => forceFail s0.wf s2
+  | .raise s2 => forceFail s2
   | .ok s2 =>
     if s2.st = .running then
       match scheduleAction p s2 with
@@ -330,24 +327,31 @@ def setRunningExisting (s : S) : S :=
   if s.st = .running ∧ s.msg = .none then s
   else { s with st := .running, msg := .none, processed := false }
 
+/-- an action execution of the task has not completed -/
+def hasOutstanding (acts : List Act) : Bool := acts.any fun a => a.res.isNone
+
 /-- rpc `start_task(first_run=False)` (RunExistingTask after resume) → `_run_existing`. -/
 def startExisting (p : Params) (s : S) : S :=
   if !s.pendingExisting then s
   else
     let s0 := { s with pendingExisting := false }
     if s0.st = .success then s0            -- MistralError escapes run_task: rolled back
+    else if s0.st = .running ∧ hasOutstanding s0.acts then s0   -- 258aaaae: already running its action
     else
       let s1 := setRunningExisting s0
       match scheduleAction p { s1 with acts := resetActions s1.acts } with
       | some s2 => s2
       | none => crash s0
 
-/-- `task_handler.continue_task`: RUNNING from *any* state, then `_run_existing`. -/
+/-- `task_handler.continue_task`: RUNNING, then `_run_existing` — which (258aaaae) starts nothing
+    when an action execution of the task is still outstanding (the attempt the timer failed). -/
 def continueTask (p : Params) (s : S) : S :=
   let s1 := { s with st := .running, msg := .none }
-  match scheduleAction p { s1 with acts := resetActions s1.acts } with
-  | some s2 => s2
-  | none => crash s
+  if hasOutstanding s1.acts then s1
+  else
+    match scheduleAction p { s1 with acts := resetActions s1.acts } with
+    | some s2 => s2
+    | none => crash s
 
 /-- The executor's answer for action `i` arrives: `Action.complete` then `Task.complete`. -/
 def result (p : Params) (s : S) (i : Nat) (o : Outcome) (c b : Bool) : S :=
@@ -368,8 +372,9 @@ def fire (p : Params) (s : S) (idx : Nat) : S :=
     else
       let s0 := { s with jobs := s.jobs.eraseIdx idx }
       match j.kind with
-      | .cont => continueTask p s0
-      | .complete st m => completeTask p s0 st m
+      -- 831643dc: `_continue_task` / `_complete_task` return unless the task is (still) DELAYED
+      | .cont => if s0.st = .delayed then continueTask p s0 else s0
+      | .complete st m => if s0.st = .delayed then completeTask p s0 st m else s0
       | .timeout => if isCompleted s0.st then s0 else completeTask p s0 .error .timeout
 
 /-- `resume_workflow`: IDLE tasks are run again, completed unprocessed ones get their follow-ups. -/
